@@ -88,7 +88,25 @@ def nt_long(tr):
     return any(len(b["b"]["s"].b) > 74 for s in tr["steps"] for b in s["d"] if b["f"] == "T")
 
 
+def scale_traces(pid, cfg, tier, seed, work, first_id, hook=None):
+    """A history far beyond the small universes: more than a thousand sibling stems submitted in order (a
+    sibling tree that degenerates into a chain deeper than the interpreter's default recursion limit), then a
+    known page re-submitted.  One trace in the quick tier, three in the thorough tier."""
+    out = []
+    variants = [("memory", 1100, False)] + ([("file", 1100, True), ("memory", 1300, False)] if tier != "quick" else [])
+    for j, (be, n, desc) in enumerate(variants):
+        site = b"s:http|h:com|h:list|"
+        kids = [site + b"p:a%04d|" % i for i in range(n)]
+        if desc:
+            kids.reverse()
+        ops = [{"op": "AddPages", "ls": kids[c:c + 100], "cr": False} for c in range(0, n, 100)]
+        ops += [{"op": "AddPage", "l": kids[3], "cr": True}, {"op": "AddLinks", "pairs": [(kids[-1], kids[0])]}]
+        out.append(runner.run_fixed(be, {"k": "domain"}, [], ops, hook=hook, tid=first_id + j, src="scale"))
+    return out, {"scale_histories": len(out)}
+
+
 reg("C01", exc_ops=WRITE_OPS, nontrivial=nt_pages,
+    extra_sources=(tlcgen.tlc_traces, tlcgen.repo_test_traces, scale_traces),
     weights={"AddPage": 25, "AddPages": 14, "AddLinks": 14, "IndexBatchCrawl": 16, "AddRule": 9},
     profile={"longfirst": 0.45, "mutual": 0.3, "text": 0.3}, n=(150, 1500),
     title="Page set fidelity")
@@ -108,7 +126,7 @@ reg("C05", exc_ops=set(), nontrivial=nt_we, hook="wepages", obs_fail=True,
     # (C05.marks), and the enumeration with the submissions (C01.crawled): both links are needed
     prefixes=["C05.", "C01.crawled"],
     weights={"CreateWe": 12, "AddPrefix": 8, "MovePrefix": 5, "AddRule": 6, "IndexBatchCrawl": 18},
-    profile={"raw": 0.0, "long": 0.3, "nlrus": 12}, title="Webentity page sets")
+    profile={"raw": 0.0, "long": 0.3, "nlrus": 12, "deeppath": 0.005}, title="Webentity page sets")
 reg("C06", exc_ops=WRITE_OPS | RULE_OPS, nontrivial=nt_we, hook="potential",
     mc=[("core", 4, 5), ("we", 4, 5), ("wesub", 0, 5)],
     gen_mc="we",
@@ -177,7 +195,7 @@ reg("C09", exc_ops=set(), nontrivial=nt_pages, hook="pagination", obs_fail=False
     weights={"Paginate": 40, "AddPage": 30, "AddPages": 8, "CreateWe": 8, "AddPrefix": 8, "AddLinks": 4,
              "IndexBatchCrawl": 4, "Clear": 3, "DeleteWe": 2, "RemovePrefix": 2, "MovePrefix": 2},
     profile={"raw": 0.0, "long": 0.2, "nlrus": 18, "extend": 0.3, "continue": 0.55, "concentrate": 1,
-             "nestsib": 0.6}, steps=(24, 32),
+             "nestsib": 0.6, "sortedsiblings": 0.04}, steps=(24, 32),
     title="Page pagination")
 reg("C10", exc_ops=set(), nontrivial=nt_links, hook="paglinks", obs_fail=False,
     weights={"PagLinks": 40, "AddLinks": 30, "IndexBatchCrawl": 12, "AddPage": 12, "CreateWe": 12, "AddPrefix": 8,
@@ -211,6 +229,14 @@ def id_boundary_traces(pid, cfg, tier, seed, work, first_id, hook=None):
                 {"op": "Reopen", "def": {"k": kind}, "rules": []},
                 {"op": "AddPage", "l": b"s:https|h:fr|h:z|", "cr": False}]
         out.append(runner.run_fixed("file", {"k": kind}, [], ops, hook=hook, tid=first_id + j, src="id-boundary"))
+    # one creation request attaching a thousand prefixes and one more: one id shared by all of them
+    for n in ((1001,) if tier == "quick" else (1000, 1001)):
+        ps = [b"s:http|h:com|h:p%04d|" % i for i in range(n)]
+        rng.shuffle(ps)
+        ops = [{"op": "AddPage", "l": b"s:http|h:org|h:a|p:x|", "cr": False}, {"op": "CreateWe", "ps": ps},
+               {"op": "AddPage", "l": ps[5] + b"p:a|", "cr": True}, {"op": "Reopen", "def": {"k": "domain"}, "rules": []},
+               {"op": "CreateWe", "ps": [b"s:http|h:org|h:x|"]}]
+        out.append(runner.run_fixed("file", {"k": "domain"}, [], ops, hook=hook, tid=first_id + len(out), src="id-boundary"))
     return out, {"id_boundary_histories": len(out)}
 
 
